@@ -8,7 +8,7 @@ import re
 from ..cfg import build_cfg, calls_in, node_calls
 from ..core import Ctx, property_info, rule
 from ..model import AnalysisError, ClassInfo, FuncInfo, const_str, walk_no_nested
-from ..q import stores, unparse
+from ..q import A, stores, unparse
 
 DT = "xsdata.models.datatype"
 DATES = "xsdata.utils.dates"
@@ -519,3 +519,26 @@ def range_tables(ctx: Ctx) -> None:
     ct = ctx.repo.func(f"{DATES}:calculate_timezone")
     ctx.ob("calculate_offset / calculate_timezone use minutes on both sides", "total_seconds() // 60" in unparse(co.node) and "timedelta(minutes=offset)" in unparse(ct.node),
            at=co, construct="offset units", msg="offset units differ between the two conversions")
+
+
+@rule("C06.R8")
+def day_number_steps_in_order(ctx: Ctx) -> None:
+    """_days_from_civil shifts January / February to the previous year BEFORE the 400-year era is split off; _timeline combines day number, time and offset as integers."""
+    fi = ctx.repo.func(f"{DT}:_days_from_civil")
+    g = build_cfg(fi.node)
+    shift = [g.node_of(st) for st, tgt, v in stores(fi.node) if isinstance(st, ast.AugAssign) and unparse(tgt) == "year" and isinstance(st.op, ast.Sub)]
+    mt = [t for t in g.nodes if t.kind == "test" and A(unparse(t.ast)) in (A("month <= 2"), A("month < 3"))]
+    era = [g.node_of(st) for st, tgt, v in stores(fi.node) if v is not None and "year" in {n.id for n in ast.walk(v) if isinstance(n, ast.Name)} and not (isinstance(st, ast.AugAssign) and unparse(tgt) == "year")]
+    ok = len(shift) == 1 and len(mt) == 1 and bool(era) and g.only_if(shift[0].id, mt[0].id, True) and all(e is not None and g.must_pass(g.entry, e.id, [mt[0].id]) for e in era)
+    ctx.ob("_days_from_civil: every value derived from `year` is computed after the Jan/Feb year shift", ok, at=fi, construct="year shift first",
+           msg="the era / year-of-era are split before the shift: January and February of years divisible by 400 land on the wrong day (2000-02-29 == 2000-03-01)")
+    consts = {n.value for n in ast.walk(fi.node) if isinstance(n, ast.Constant) and isinstance(n.value, int)}
+    ctx.ob("_days_from_civil uses the proleptic Gregorian constants (400, 146097, 365, 4, 100, 153)", {400, 146097, 365, 4, 100, 153} <= consts, at=fi, construct="calendar constants", msg=f"constants {sorted(consts)}")
+    tl = ctx.repo.func(f"{DT}:_timeline")
+    a = unparse(tl.node)
+    ctx.ob("_timeline uses the day number only for dateTime values and scales seconds to nanoseconds", "isinstance(obj, XmlDateTime)" in a and "1000000000" in a.replace("_", "") and "obj.fractional_second" in a, at=tl,
+           construct="timeline composition", msg="timeline composition changed")
+    for name, want in (("DS_DAY", 86400), ("DS_HOUR", 3600), ("DS_MINUTE", 60), ("DS_OFFSET", -60)):
+        v = ctx.repo.module(DT).globals.get(name)
+        val = v.value if isinstance(v, ast.Constant) else (-v.operand.value if isinstance(v, ast.UnaryOp) and isinstance(v.operand, ast.Constant) else None)
+        ctx.ob(f"{name} = {want}", val == want, at=ctx.repo.module(DT), node=v, construct=f"const {name}", msg=f"{name} is {val}")
